@@ -578,19 +578,34 @@ fn writer_pending(d: &TrieBuf) -> bool {
     !format!("{:?}", d).contains("join_handle: None")
 }
 
-/// `reopen()` in the sequential schedule: if a snapshot writer is in flight, wait until it has
-/// finished, so that exactly one `sync()` takes effect
-fn reopen_seq(d: &mut TrieBuf) {
-    let mut spins = 0u32;
+/// how many sequential `reopen()`s gave up waiting (after a few, nobody waits any more: a run against a
+/// broken implementation must still finish quickly and report)
+static STUCK: std::sync::atomic::AtomicU32 = std::sync::atomic::AtomicU32::new(0);
+
+/// calls `reopen` until `pending` is false; gives up after 2 s (`false` = the writer registered by
+/// `flush()` is still registered: `reopen()` never joins / adopts it)
+fn reopen_until(mut reopen: impl FnMut(), mut pending: impl FnMut() -> bool) -> bool {
+    use std::sync::atomic::Ordering::Relaxed;
+    let patience = if STUCK.load(Relaxed) >= 3 { 20 } else { 2000 };
+    let t0 = std::time::Instant::now();
     loop {
-        d.reopen().unwrap();
-        if !writer_pending(d) {
-            return;
+        reopen();
+        if !pending() {
+            return true;
         }
-        spins += 1;
-        assert!(spins < 200_000, "snapshot writer never finished");
+        if t0.elapsed().as_millis() > patience {
+            STUCK.fetch_add(1, Relaxed);
+            return false;
+        }
         std::thread::sleep(std::time::Duration::from_micros(50));
     }
+}
+
+/// `reopen()` in the sequential schedule: if a snapshot writer is in flight, wait until it has
+/// finished, so that exactly one `sync()` takes effect
+fn reopen_seq(d: &mut TrieBuf) -> bool {
+    let d = std::cell::RefCell::new(d);
+    reopen_until(|| d.borrow_mut().reopen().unwrap(), || writer_pending(&d.borrow()))
 }
 
 /// applies one operation to the real dictionary; returns whether it was accepted
@@ -607,7 +622,9 @@ fn apply_real(d: &mut TrieBuf, op: &Op, path: Option<&Path>) -> bool {
         Op::Remove(k, t) => d.remove_phrase(&syls(k), t).is_ok(),
         Op::Flush => d.flush().is_ok(),
         Op::Reopen => {
-            reopen_seq(d);
+            if !reopen_seq(d) {
+                panic!("STUCK");
+            }
             true
         }
         Op::CloseOpen => {
@@ -644,7 +661,20 @@ fn run_triebuf(cx: &mut Ctx, p: &Pools, rng: &mut Rng, file: bool, script: Optio
         let ops: Vec<Op> = if matches!(op, Op::CloseOpen) { vec![Op::Reopen, Op::CloseOpen] } else { vec![op] };
         for op in ops {
             let expect_ok = r.clone().apply(&op);
-            let ok = apply_real(&mut d, &op, if file { Some(&path) } else { None });
+            let ok = match catch_unwind(AssertUnwindSafe(|| apply_real(&mut d, &op, if file { Some(&path) } else { None }))) {
+                Ok(ok) => ok,
+                Err(e) => {
+                    let stuck = e.downcast_ref::<&str>().map_or(false, |m| *m == "STUCK");
+                    let what = if stuck {
+                        "reopen() was called for 2 s and the snapshot writer registered by flush() is still registered (never joined / adopted)".to_string()
+                    } else {
+                        "the implementation panicked".to_string()
+                    };
+                    hist.push(op_s(&op));
+                    cx.fail("new", format!("{kind} [{}] {what}", hist.join(" ")));
+                    return;
+                }
+            };
             hist.push(op_s(&op));
             let hs = hist.join(" ");
             if ok != expect_ok {
@@ -787,9 +817,13 @@ fn run_layered(cx: &mut Ctx, p: &Pools, rng: &mut Rng, len: usize, file: bool) {
     let a_es = gen_entries(p, &keys, rng, na);
     let b_es = gen_entries(p, &keys, rng, nb);
     let a_ops: Vec<Op> = a_es.iter().map(|(k, t, f, tm)| Op::Add(k.clone(), t.clone(), *f, *tm)).collect();
+    // two directories: `TrieBuilder::build` writes `<dir>/chewing-<microseconds of the clock>.dat` and renames
+    // it, so two snapshot writers started in the same microsecond in one directory overwrite each other
+    // (observed: lost snapshots when `lay` and `twin` shared a directory; concurrency is C10's subject)
     let tmp = tempfile::tempdir().unwrap();
+    let tmp_twin = tempfile::tempdir().unwrap();
     let path = tmp.path().join("user.dat");
-    let path_twin = tmp.path().join("twin.dat");
+    let path_twin = tmp_twin.path().join("user.dat");
     let open_user = |path: &Path| -> Box<dyn Dictionary> {
         if file {
             Box::new(TrieBuf::open(path).unwrap())
@@ -834,6 +868,7 @@ fn run_layered(cx: &mut Ctx, p: &Pools, rng: &mut Rng, len: usize, file: bool) {
                 cx.bump("layered_empty_phrase_ops");
             }
             let expect_ok = skipped || u_ref.clone().apply(&op);
+            let stuck = std::cell::Cell::new(false);
             let apply_l = |l: &mut Layered, path: &Path| -> bool {
                 match &op {
                     Op::Add(k, t, f, tm) => {
@@ -848,15 +883,9 @@ fn run_layered(cx: &mut Ctx, p: &Pools, rng: &mut Rng, len: usize, file: bool) {
                     Op::Flush => l.flush().is_ok(),
                     Op::Reopen => {
                         // sequential schedule: wait until a writer in flight has finished
-                        let mut spins = 0u32;
-                        loop {
-                            l.reopen().unwrap();
-                            if !layered_writer_pending(l, 2) {
-                                break;
-                            }
-                            spins += 1;
-                            assert!(spins < 200_000, "snapshot writer never finished");
-                            std::thread::sleep(std::time::Duration::from_micros(50));
+                        let l = std::cell::RefCell::new(l);
+                        if !reopen_until(|| l.borrow_mut().reopen().unwrap(), || layered_writer_pending(&l.borrow(), 2)) {
+                            stuck.set(true);
                         }
                         true
                     }
@@ -874,6 +903,10 @@ fn run_layered(cx: &mut Ctx, p: &Pools, rng: &mut Rng, len: usize, file: bool) {
             apply_l(&mut twin, &path_twin);
             hist.push(op_s(&op));
             let hs = format!("A: {a_s} | B: {b_s} | user: {}", hist.join(" "));
+            if stuck.get() {
+                cx.fail("new", format!("{kind} [{hs}] reopen() through Layered was called for 2 s and the snapshot writer registered by flush() is still registered in the user layer (never joined / adopted)"));
+                return;
+            }
             if ok != expect_ok {
                 cx.fail("new", format!("{kind} [{hs}] the last operation returned {} but the map says {}", ok, expect_ok));
             }
